@@ -48,9 +48,58 @@ theorem exec_drop' (t rest : Str) (c : Cat) (h : 32 ∉ t) :
   rw [execSQL, h1, List.append_assoc, strip_append]
   simp only [word_append t rest h]
 
-/-- a statement that starts with `ALTER TABLE ` leaves the catalogue as it is -/
-theorem exec_alter (rest : Str) (c : Cat) : execSQL (lit "ALTER TABLE " ++ rest) c = .ok c := by
-  simp [execSQL, strip, pCT, pDT, pCI, pCUI, lit]
+/-- `ALTER TABLE t <clause>` where the clause is neither ` ADD INDEX ` nor ` ADD UNIQUE `: no catalogue effect
+    (the clause is given by its first six characters after the blank: they decide) -/
+theorem exec_alter (t : Str) (k1 k2 k3 k4 k5 : Nat) (rest : Str) (c : Cat) (h : 32 ∉ t)
+    (hk : ¬ (k1 = 65 ∧ k2 = 68 ∧ k3 = 68 ∧ k4 = 32 ∧ (k5 = 73 ∨ k5 = 85))) :
+    execSQL (pAT ++ (t ++ 32 :: k1 :: k2 :: k3 :: k4 :: k5 :: rest)) c = .ok c := by
+  have s1 : strip pCT (pAT ++ (t ++ 32 :: k1 :: k2 :: k3 :: k4 :: k5 :: rest)) = none := by simp [strip, pCT, pAT]
+  have s2 : strip pDT (pAT ++ (t ++ 32 :: k1 :: k2 :: k3 :: k4 :: k5 :: rest)) = none := by simp [strip, pDT, pAT]
+  have s3 : strip pCUI (pAT ++ (t ++ 32 :: k1 :: k2 :: k3 :: k4 :: k5 :: rest)) = none := by simp [strip, pCUI, pAT]
+  have s4 : strip pCI (pAT ++ (t ++ 32 :: k1 :: k2 :: k3 :: k4 :: k5 :: rest)) = none := by simp [strip, pCI, pAT]
+  rw [execSQL, s1, s2, s3, s4, strip_append]
+  simp only [execAlter, word_append t _ h, List.drop_left]
+  have a1 : strip pAI (32 :: k1 :: k2 :: k3 :: k4 :: k5 :: rest) = none := by
+    simp only [strip, pAI, List.isPrefixOf, Bool.and_eq_true, beq_iff_eq, ite_eq_right_iff, reduceCtorEq, imp_false]
+    intro hh; exact hk ⟨hh.2.1.symm, hh.2.2.1.symm, hh.2.2.2.1.symm, hh.2.2.2.2.1.symm, Or.inl hh.2.2.2.2.2.1.symm⟩
+  have a2 : strip pAU (32 :: k1 :: k2 :: k3 :: k4 :: k5 :: rest) = none := by
+    simp only [strip, pAU, List.isPrefixOf, Bool.and_eq_true, beq_iff_eq, ite_eq_right_iff, reduceCtorEq, imp_false]
+    intro hh; exact hk ⟨hh.2.1.symm, hh.2.2.1.symm, hh.2.2.2.1.symm, hh.2.2.2.2.1.symm, Or.inr hh.2.2.2.2.2.1.symm⟩
+  rw [a1, a2]
+
+/-- MySQL's `ALTER TABLE t ADD INDEX|UNIQUE name (…)` adds the index `(table, name)` -/
+theorem exec_index_mysql (decl : Decl) (ix : Index) (c : Cat) (h1 : 32 ∉ decl.tableName) (h2 : 32 ∉ ix.name) :
+    execSQL (indexSQL .mysql decl ix) c =
+      if (decl.tableName, ix.name) ∈ c.indexes then .error ()
+      else .ok { c with indexes := c.indexes ++ [(decl.tableName, ix.name)] } := by
+  have pre : ∀ x : Str, strip pCT (pAT ++ x) = none ∧ strip pDT (pAT ++ x) = none ∧ strip pCUI (pAT ++ x) = none ∧
+      strip pCI (pAT ++ x) = none := by
+    intro x; simp [strip, pCT, pDT, pCUI, pCI, pAT]
+  cases hu : ix.unique
+  · have e : indexSQL .mysql decl ix = pAT ++ (decl.tableName ++ (pAI ++ (ix.name ++ 32 :: (40 ::
+        joinWith (lit ", ") (indexCols decl ix) ++ [41])))) := by
+      simp [indexSQL, hu, lit, pAT, pAI]
+    obtain ⟨s1, s2, s3, s4⟩ := pre (decl.tableName ++ (pAI ++ (ix.name ++ 32 :: (40 ::
+        joinWith (lit ", ") (indexCols decl ix) ++ [41]))))
+    rw [e, execSQL, s1, s2, s3, s4, strip_append]
+    have w1 : word (decl.tableName ++ (pAI ++ (ix.name ++ 32 :: (40 :: joinWith (lit ", ") (indexCols decl ix) ++ [41])))) =
+        decl.tableName := by
+      rw [show pAI = 32 :: [65, 68, 68, 32, 73, 78, 68, 69, 88, 32] from rfl, List.cons_append]
+      exact word_append _ _ h1
+    simp only [execAlter, w1, List.drop_left, strip_append, word_append ix.name _ h2, addIndex]
+  · have e : indexSQL .mysql decl ix = pAT ++ (decl.tableName ++ (pAU ++ (ix.name ++ 32 :: (40 ::
+        joinWith (lit ", ") (indexCols decl ix) ++ [41])))) := by
+      simp [indexSQL, hu, lit, pAT, pAU]
+    obtain ⟨s1, s2, s3, s4⟩ := pre (decl.tableName ++ (pAU ++ (ix.name ++ 32 :: (40 ::
+        joinWith (lit ", ") (indexCols decl ix) ++ [41]))))
+    rw [e, execSQL, s1, s2, s3, s4, strip_append]
+    have w1 : word (decl.tableName ++ (pAU ++ (ix.name ++ 32 :: (40 :: joinWith (lit ", ") (indexCols decl ix) ++ [41])))) =
+        decl.tableName := by
+      rw [show pAU = 32 :: [65, 68, 68, 32, 85, 78, 73, 81, 85, 69, 32] from rfl, List.cons_append]
+      exact word_append _ _ h1
+    have a1 : strip pAI (pAU ++ (ix.name ++ 32 :: (40 :: joinWith (lit ", ") (indexCols decl ix) ++ [41]))) = none := by
+      simp [strip, pAI, pAU]
+    simp only [execAlter, w1, List.drop_left, a1, strip_append, word_append ix.name _ h2, addIndex]
 
 /-- the model's `CREATE [UNIQUE] INDEX` text (every dialect but MySQL) adds the index `(table, name)` -/
 theorem exec_index (d : Dialect) (hd : d ≠ .mysql) (decl : Decl) (ix : Index) (c : Cat)
@@ -111,5 +160,15 @@ theorem exec_index (d : Dialect) (hd : d ≠ .mysql) (decl : Decl) (ix : Index) 
         simp [strip, pDT, pCUI]
       rw [s1, s2, strip_append]
       exact key _
+
+/-- the index statement of every dialect adds the index `(table, name)` -/
+theorem exec_index_all (d : Dialect) (decl : Decl) (ix : Index) (c : Cat)
+    (h1 : 32 ∉ decl.tableName) (h2 : 32 ∉ ix.name) :
+    execSQL (indexSQL d decl ix) c =
+      if (decl.tableName, ix.name) ∈ c.indexes then .error ()
+      else .ok { c with indexes := c.indexes ++ [(decl.tableName, ix.name)] } := by
+  by_cases hd : d = .mysql
+  · subst hd; exact exec_index_mysql decl ix c h1 h2
+  · exact exec_index d hd decl ix c h1 h2
 
 end SqlObjVerif.DdlX
